@@ -200,6 +200,13 @@ class RemoteFamily(common.Family):
           ops.append(op)
       clients.append(ops)
     fault = rng.choice(['none', 'none', 'stop', 'shutdown_rpc', 'kill'])
+    if fault == 'none' and rng.random() < 0.08:
+      # a long-lived cached (stateful) object kept in use while some 140 other
+      # cached results are created on the server: more than its result cache
+      # holds, so the cache has to keep what is in use
+      clients[rng.randrange(nclients)].append(
+          {'op': 'churn', 'n': rng.randrange(132, 150),
+           'every': rng.choice([2, 3, 5]), 'v': 1000 + rng.randrange(1000)})
     return {
         'clients': clients,
         'shared_iter': rng.choice([0, 0, 3, 6]),   # a list iterated by everybody
@@ -269,6 +276,19 @@ class RemoteFamily(common.Family):
       if kind == 'slow_raise':
         e = lazy_fns.trace(L.slow_boom)(op['secs'], op['kind'], op['msg'], tag)
         return outcome(lambda: client.get_result(e), 'slow_raise')
+      if kind == 'churn':
+        box = lazy_fns.trace(L.Box)(op['v']).set_(_cache_result=True)
+        bumps = []
+        for i in range(op['n']):
+          other = lazy_fns.trace(L.ident)(['churn', tag, i]).set_(
+              _cache_result=True)
+          r = outcome(lambda: client.get_result(other), 'churn')
+          if r[0] != 'ok':
+            return ['churn-failed', i, r]
+          if i % op['every'] == 0:
+            bumps.append(outcome(lambda: client.get_result(box.bump()), 'churn'))
+        sim.count('probe:result_cache_cycled')
+        return ['churn', bumps]
       if kind == 'eval':
         e = lazy(op['expr'])
         if op['cache'] and hasattr(e, 'set_'):
@@ -418,6 +438,15 @@ class RemoteFamily(common.Family):
       for j, op in enumerate(ops):
         got = obs['results'][c][j]
         kind = op['op']
+        if kind == 'churn':
+          want = [['ok', repr(k + 1)] for k in range(len(got[1]))] if (
+              got and got[0] == 'churn') else None
+          if want is None or got[1] != want:
+            res.append(v('equivalence', f'cached-object-state:{fault}',
+                         f'a cached stateful object used every {op["every"]} '
+                         f'creations while {op["n"]} other cached results were '
+                         f'created: bump() returned {got}'))
+          continue
         if kind == 'slow_raise':
           exp = ['exc', op['kind'], op['msg']]
           if op['kind'] == 'KeyError':
